@@ -107,10 +107,12 @@ func parseGetBody(b []byte) ([]getEntry, bool) {
 func checkC09(c *Ctx) {
 	c.SetRule("(A) GET id lists (1-60 ids mixing readable, write-only, missing, repeated and malformed ids) over databases of 1-150 accessories; " +
 		"(B) every zero-argument characteristic constructor × boundary and random valid values of its format, both directions; " +
-		"(C) /accessories of a bridge read end to end over TCP by the reference controller. " +
+		"(C) /accessories of a bridge read end to end over TCP by the reference controller; " +
+		"(chunkw) the chunked writer over response writers that take less than offered or fail, vs HcModel/ChunkedWriter.lean. " +
 		"non-trivial = (A) list with at least one existing and one failing id, (B) a value different from the default that is stored and read back")
 	c.Assume("encoding/json decode∘encode = id on bool/number/string values; net/http chunked transfer coding is transparent")
 	c09Dispatch(c)
+	c09Chunkw(c)
 	c09Values(c)
 	c09Scenes(c)
 	c09PutAnswers(c)
